@@ -22,10 +22,19 @@ import (
 // forms. Atoms are hash-consed on Key, so equal keys mean syntactically equal
 // computations over the same entry symbols.
 type Atom struct {
-	ID  int
-	Key string
-	W   int    // width in bits of the quantity
-	Hi  uint64 // inclusive upper bound (lower bound is 0)
+	ID   int
+	Key  string
+	W    int     // width in bits of the quantity
+	Hi   uint64  // inclusive upper bound (lower bound is 0)
+	Deps []*Atom // base atoms (entry symbols, bus reads) this quantity is computed from; nil for a base atom
+}
+
+// BaseDeps returns the base atoms a depends on (itself if it is a base atom).
+func (a *Atom) BaseDeps() []*Atom {
+	if a.Deps == nil {
+		return []*Atom{a}
+	}
+	return a.Deps
 }
 
 type Interner struct {
@@ -38,7 +47,9 @@ func NewInterner() *Interner { return &Interner{atoms: map[string]*Atom{}} }
 
 func (in *Interner) Atom(key string, w int, hi uint64) *Atom {
 	if a, ok := in.atoms[key]; ok {
-		if hi < a.Hi {
+		// the bound must hold wherever the atom is used, not only where it was
+		// created under some edge refinement: keep the weakest bound seen
+		if hi > a.Hi {
 			a.Hi = hi
 		}
 		return a
@@ -48,6 +59,45 @@ func (in *Interner) Atom(key string, w int, hi uint64) *Atom {
 	in.list = append(in.list, a)
 	return a
 }
+
+// Derived interns an atom computed from the given forms and records its base dependencies.
+func (in *Interner) Derived(key string, w int, hi uint64, from ...*Lin) *Atom {
+	a := in.Atom(key, w, hi)
+	if a.Deps == nil {
+		seen := map[*Atom]bool{}
+		deps := []*Atom{}
+		for _, l := range from {
+			for _, t := range l.T {
+				for _, d := range t.A.BaseDeps() {
+					if !seen[d] {
+						seen[d] = true
+						deps = append(deps, d)
+					}
+				}
+			}
+		}
+		a.Deps = deps
+	}
+	return a
+}
+
+// LinDeps lists the base atoms a form depends on.
+func LinDeps(l *Lin) []*Atom {
+	seen := map[*Atom]bool{}
+	var deps []*Atom
+	for _, t := range l.T {
+		for _, d := range t.A.BaseDeps() {
+			if !seen[d] {
+				seen[d] = true
+				deps = append(deps, d)
+			}
+		}
+	}
+	return deps
+}
+
+// ResetFresh restarts the numbering of fresh atoms (only valid on a new interner).
+func (in *Interner) FreshCount() int { return in.fresh }
 
 // Fresh returns an atom equal to nothing else.
 func (in *Interner) Fresh(prefix string, w int, hi uint64) *Atom {
